@@ -6,7 +6,7 @@ From Coq Require Import Ascii String.
 Import ListNotations.
 
 Theorem C13_only_documented_pdb :
-  forall (V : Type) (split : string -> list string) (isblank : string -> bool) (float_of : string -> res V)
+  forall (V : Type) (split : string -> list string) (isblank : string -> bool) (strip : string -> string) (float_of : string -> res V)
          (set_lat_par : list V -> res unit)
          (scale3_finish : lat_state V -> list (option (list V)) -> list (option V) -> res (bool * bool))
          (set_xyz_cartn dot_scale : lat_state V -> list V -> res unit),
@@ -15,7 +15,7 @@ Theorem C13_only_documented_pdb :
     (forall a b c, within [LinAlgError; ValueError; LatticeError; ZeroDivisionError] (scale3_finish a b c)) ->
     (forall a l, within [ValueError] (set_xyz_cartn a l)) ->
     (forall a l, within [ValueError] (dot_scale a l)) ->
-    forall lines, documented (parse_pdb V split isblank float_of set_lat_par scale3_finish set_xyz_cartn dot_scale lines).
+    forall lines, documented (parse_pdb V split isblank strip float_of set_lat_par scale3_finish set_xyz_cartn dot_scale lines).
 Proof. exact only_documented_pdb. Qed.
 Print Assumptions C13_only_documented_pdb.
 
